@@ -411,8 +411,9 @@ func validateNonEmpty(v interface{}, name string) error {
 }
 
 func validateNonEmptyWithAllowNil(v interface{}, _ string, allowNil bool) error {
-	if s, ok := v.(string); ok {
-		if s == "" {
+	// strings, also of a named string type
+	if s := reflect.ValueOf(v); s.Kind() == reflect.String {
+		if s.Len() == 0 {
 			return ErrStringEmpty
 		}
 		return nil
